@@ -191,6 +191,33 @@ def run(ctx):
                 if np.abs(a_after - a_before).max() > 5e-3:
                     viol(tag + "|mic-angle-changed", "%s changed a minimum-image angle by %.4g rad" % (tag, np.abs(a_after - a_before).max()), rp)
 
+        # ---- the in-place kernels move atoms without going through the xyz setter: a cached RMSD state (center_coordinates) must not survive
+        if nfr >= 2:
+            for call in ("make_molecules_whole", "image_molecules"):
+                for inplace in (False, True):
+                    tc = md.Trajectory(orig.copy(), top, time=t.time.copy(), unitcell_lengths=cell0[0].copy(), unitcell_angles=cell0[1].copy())
+                    tc.center_coordinates()
+                    try:
+                        res = getattr(tc, call)(inplace=inplace)
+                        got = np.array(md.rmsd(res, res, 0, precentered=True), dtype=np.float64)
+                        from props.c06 import kabsch, tol_msd
+                        X64r = np.array(res.xyz, dtype=np.float64)
+                        want, tols = [], []
+                        for f in range(nfr):
+                            m_, Ga_, Gb_, lam_, gap_, _, _ = kabsch(X64r[f], X64r[0])
+                            want.append(np.sqrt(max(m_, 0.0))); tols.append(tol_msd((Ga_ + Gb_) / n, gap_ / max(lam_, 1e-30), float(np.abs(X64r).max()), np.sqrt(max(m_, 0.0))))
+                        want, tols = np.array(want), np.array(tols)
+                    except Exception as e:
+                        if "anchor molecules" in str(e):
+                            ctx.count("cached-RMSD checks skipped: no anchor molecule by the documented heuristic")
+                            continue
+                        viol(call + "|after-centering|raises", "%s after center_coordinates raised %s: %s" % (call, type(e).__name__, e), dict(rp0, call=call, inplace=inplace))
+                        continue
+                    ctx.case(None, (k, "cache", call, inplace)); ctx.count("cached-RMSD checks after re-imaging")
+                    if np.any(np.abs(got ** 2 - want ** 2) > 4 * tols + 1e-7):
+                        viol(call + "|stale-rmsd-cache", "center_coordinates(); %s(inplace=%s): rmsd(precentered=True) gives %s, the optimal-superposition RMSD of the returned coordinates is %s" % (call, inplace, got[:4], want[:4]),
+                             dict(rp0, call=call, inplace=inplace))
+
         # ---- make_molecules_whole
         for inplace in (False, True):
             t_call = md.Trajectory(orig.copy(), top, time=t.time.copy(), unitcell_lengths=cell0[0].copy(), unitcell_angles=cell0[1].copy())
